@@ -94,10 +94,13 @@ def run(ck):
     plan = [(nm, (1, 2)) for nm in names2] + [(nm, (2, 3)) for nm in (["square", "honeycomb"] if ck.quick else ["square", "tria", "honeycomb", "rect"])] + \
            [(nm, (1, 2)) for nm in names3]
     rng.shuffle(plan)
-    plan = plan[:ck.n(5, len(plan))]
+    plan = plan[:ck.n(6, len(plan))]
     # always: a crystal where a state of the OUTER kinetic shell is closer than a thermodynamic state (rect, b/a = 1.25, range 2:
     # (2a,b) at 2.36 is outer, (0,2b) at 2.5 is thermodynamic), so the star ordering by distance interleaves the two sets
-    plan = [("rect", (2, 3))] + [x for x in plan if x != ("rect", (2, 3))]
+    # always as well: several Wyckoff sets with different solute site energies (sq2w; non-uniform solute probability in every
+    # bare-reference term of Lij)
+    forced = [("rect", (2, 3)), ("sq2w", (1, 2))]
+    plan = forced + [x for x in plan if x not in forced]
     n = 0
     for nm, (N1, N2) in plan:
         crys, chem = gen.named(nm)
